@@ -166,7 +166,7 @@ class SpecArray(object):
     def _standard_name(self, varname):
         try:
             return attrs.ATTRS[varname]["standard_name"]
-        except AttributeError:
+        except (AttributeError, KeyError):
             warnings.warn(
                 f"Cannot set standard_name for variable {varname}. "
                 "Ensure it is defined in attributes.yml"
@@ -176,7 +176,7 @@ class SpecArray(object):
     def _units(self, varname):
         try:
             return attrs.ATTRS[varname]["units"]
-        except AttributeError:
+        except (AttributeError, KeyError):
             warnings.warn(
                 f"Cannot set units for variable {varname}. "
                 "Ensure it is defined in attributes.yml"
